@@ -867,6 +867,8 @@ class Interp:
             return it.__pyvc_iter__()
         if isinstance(it, Sym):
             raise Unreached('iteration over symbolic %r without invariant' % (it,))
+        if it is None or isinstance(it, (bool, int, float)):
+            self.ctx.raise_py(TypeError, '%r object is not iterable' % type(it).__name__)  # as Python does (e.g. unpacking None)
         try:
             return iter(it)
         except TypeError:
